@@ -129,3 +129,9 @@ func sameBacking(x, y []value) bool {
 	}
 	return false
 }
+
+func init() {
+	verifFuncs["verifParam"] = func(fr *frame, a []value) value {
+		return mkStr(E.params[mustConcStr(a[0])])
+	}
+}
